@@ -17,6 +17,7 @@ RUNS = {
     "C12": [
         {"name": "K6-version", "mode": "kver", "budget": (3000, 60000), "nontrivial": r"ok=1|rmsize=[1-9]", "keyfn": "generic"},
         {"name": "K6-negotiate", "mode": "kneg", "budget": (1500, 30000), "nontrivial": r"ok=1", "keyfn": "generic"},
+        {"name": "K6-renegotiate", "mode": "kmsz", "budget": (300, 10000), "nontrivial": r"ann2=", "keyfn": "generic"},
     ],
     "C20": [
         {"name": "K8-qid", "mode": "kqid", "budget": (4000, 120000), "nontrivial": r"ok=0|q=9223|path=", "keyfn": "generic"},
@@ -79,6 +80,7 @@ RUNS = {
     ],
     "C14": [
         {"name": "K7-flush", "mode": "k7flush", "budget": (150, 4000), "nontrivial": r"rflush=1", "keyfn": "generic"},
+        {"name": "K7-scenarios", "mode": "k7scen", "budget": (6, 120), "nontrivial": r".", "keyfn": "k7scen"},
     ],
     "C16": [
         {"name": "K7-random-workloads", "mode": "k7rand", "budget": (12, 300), "nontrivial": r".", "keyfn": "generic"},
@@ -95,6 +97,7 @@ RUNS = {
     "C02": [
         {"name": "K2-framing", "mode": "k2", "budget": (1500, 40000), "nontrivial": r"recv\d+=(msg|proto)", "keyfn": "k2"},
         {"name": "K2-limit-after-version", "mode": "kmsz", "budget": (400, 20000), "nontrivial": r"reply=0", "keyfn": "generic"},
+        {"name": "K3-both-read-paths", "mode": "k3", "budget": (40, 1000), "nontrivial": r"recv\d+=(msg|proto)", "keyfn": "generic"},
     ],
 }
 
